@@ -24,7 +24,6 @@ VERIF = os.path.dirname(os.path.dirname(os.path.abspath(__file__)))
 COQ = os.path.join(VERIF, "coq")
 HARNESS = os.path.join(VERIF, "harness")
 WORK = os.path.join(VERIF, "work")
-FBH = os.path.join(HARNESS, "target", "debug", "fbh")
 
 FORBIDDEN = re.compile(r"\b(Admitted|admit|Axiom|Axioms|Parameter|Parameters|Conjecture|Hypothesis|Variable|Variables|Hypotheses)\b|Unset\s+Guard|bypass_check|type-in-type|impredicative-set|Admit Obligations|Unset\s+Positivity|Unset\s+Universe")
 # axioms of Coq's standard library that a theorem may depend on (each is named in the evidence)
@@ -78,6 +77,7 @@ def run(cmd, cwd=None, timeout=3600, env=None):
 
 
 def coq_makefile():
+    run(["sh", os.path.join(COQ, "mkproject.sh")], cwd=COQ)
     mk = os.path.join(COQ, "Makefile")
     cp = os.path.join(COQ, "_CoqProject")
     if not os.path.exists(mk) or os.path.getmtime(mk) < os.path.getmtime(cp):
@@ -166,9 +166,9 @@ def axioms_in(text):
     return ax or ["<unparsed: %s>" % text[:80]]
 
 
-def harness_build():
+def harness_build(prop):
     with Lock("cargo"):
-        rc, out = run(["cargo", "build", "--offline"], cwd=HARNESS, timeout=3000)
+        rc, out = run(["cargo", "build", "--offline", "--bin", prop.lower()], cwd=HARNESS, timeout=3000)
     return rc == 0, out
 
 
@@ -202,10 +202,16 @@ def shard_cases(path):
 
 
 def load_known():
-    path = os.path.join(VERIF, "known_findings.json")
-    if not os.path.exists(path):
-        return []
-    return json.load(open(path)).get("findings", [])
+    """known_findings.json plus per-property known/Cxx.json (same format)."""
+    out = []
+    paths = [os.path.join(VERIF, "known_findings.json")]
+    kd = os.path.join(VERIF, "known")
+    if os.path.isdir(kd):
+        paths += [os.path.join(kd, f) for f in sorted(os.listdir(kd)) if f.endswith(".json")]
+    for path in paths:
+        if os.path.exists(path):
+            out += json.load(open(path)).get("findings", [])
+    return out
 
 
 def main(prop, spec):
@@ -270,12 +276,12 @@ def main(prop, spec):
 
     # 3/4 harness
     report = None
-    okb, bout = harness_build()
+    okb, bout = harness_build(prop)
     if not okb:
         tail = "\n".join([l for l in bout.split("\n") if l.startswith("error") or "-->" in l][:30])
         broken.append(("harness-build", "cargo build of the harness against /repo failed (the code no longer offers what the tie needs):\n" + tail))
     else:
-        cmd = [FBH, prop, str(seed), tier, workdir]
+        cmd = [os.path.join(HARNESS, "target", "debug", prop.lower()), str(seed), tier, workdir]
         if args.replay:
             cmd.append(args.replay)
         rc, hout = run(cmd, cwd=VERIF, timeout=spec.get("harness_timeout", 3000))
